@@ -19,13 +19,11 @@ theorem u32_u32b (n : Nat) (h : n ≤ 4294967295) (r : Bytes) : u32 (u32b n ++ r
 
 theorem u32_be32 (n : Nat) (h : n ≤ 4294967295) (r : Bytes) : u32 (be32 n ++ r) = some (n, r) := u32_u32b n h r
 
-theorem u64_be64 (n : Nat) (h : n ≤ 18446744073709551615) (r : Bytes) : u64 (be64 n ++ r) = some (n, r) := by
-  unfold u64 be64
-  rw [List.append_assoc, u32_be32 _ (by omega)]
-  simp only
-  rw [u32_be32 _ (by omega)]
-  simp only [Option.some.injEq, Prod.mk.injEq, and_true]
-  omega
+theorem u64_be64 (n : Nat) (h : n < 18446744073709551616) (r : Bytes) : u64 (be64 n ++ r) = some (n, r) := by
+  have h1 : n / 4294967296 % 4294967296 ≤ 4294967295 := by omega
+  have h2 : n % 4294967296 ≤ 4294967295 := by omega
+  have e : n / 4294967296 % 4294967296 * 4294967296 + n % 4294967296 = n := by omega
+  simp only [u64, be64, List.append_assoc, u32_be32 _ h1, u32_be32 _ h2, e]
 
 theorem takeN_append (b r : Bytes) : takeN b.length (b ++ r) = some (b, r) := by
   simp [takeN]
@@ -73,12 +71,9 @@ theorem rows_rowsBytes (w : Nat) (rs : List (List Nat)) (hr : ∀ row ∈ rs, ro
 /-- a table attribute reads back: `attribute_length` covers exactly the count and the rows -/
 theorem table_tableBody (w : Nat) (rs : List (List Nat)) (hn : rs.length ≤ 65535)
     (hr : ∀ row ∈ rs, row.length = w ∧ ∀ x ∈ row, x ≤ 65535) : table w (tableBody rs) = some rs := by
-  unfold table tableBody
-  rw [u16_u16b _ hn]
-  simp only
   have := rows_rowsBytes w rs hr []
   simp only [List.append_nil] at this
-  rw [this]
+  simp only [table, tableBody, u16_u16b _ hn, this]
 
 /-- the operands of a `Code` attribute fit their fields -/
 def codeFits (c : CodeAttr) : Prop :=
